@@ -21,6 +21,7 @@ def run(col, configs, tier):
         # to_string_with_options sizes its buffer with buffer_size_const: the facade equals core only if that bound holds
         guarded(col, X.rule_min_digits_allowance, facts)
         guarded(col, X.rule_digit_window_allowance, facts)
+        guarded(col, X.rule_integer_sign_allowance, facts)
         guarded(col, X.rule_exponent_allowance, facts)
         guarded(col, X.rule_buffer_allowance, facts)
         for crate in ("lexical_write_float", "lexical_parse_float"):
